@@ -31,19 +31,29 @@ for p in sorted(glob.glob(os.path.join(V, 'corpus', '*', '*finding*.json'))):
     for f in (d if isinstance(d, list) else d.get('findings', [])):
         if isinstance(f, dict) and 'id' in f and 'property' in f:
             put(f, os.path.relpath(p, V))
-for p in sorted(glob.glob(os.path.join(V, 'harness', 'c[0-9][0-9].py'))):
+for p in sorted(glob.glob(os.path.join(V, 'harness', 'c[0-9][0-9]*.py'))):
     src = open(p).read()
     try:
         tree = ast.parse(src)
     except SyntaxError:
         continue
+    env = {}
     for node in tree.body:
+        if isinstance(node, ast.Assign) and len(node.targets) == 1 and isinstance(node.targets[0], ast.Name) and node.targets[0].id != 'PROPOSED_FINDINGS':
+            # module-level constants a proposal may refer to (e.g. a witness history)
+            try:
+                env[node.targets[0].id] = eval(compile(ast.Expression(node.value), p, 'eval'), {'__builtins__': {}}, dict(env))
+            except Exception:
+                pass
         if isinstance(node, ast.Assign) and any(isinstance(t, ast.Name) and t.id == 'PROPOSED_FINDINGS' for t in node.targets):
             try:
                 lst = ast.literal_eval(node.value)
-            except Exception as e:
-                print('cannot evaluate PROPOSED_FINDINGS in', p, e)
-                continue
+            except Exception:
+                try:
+                    lst = eval(compile(ast.Expression(node.value), p, 'eval'), {'__builtins__': {'dict': dict, 'list': list, 'len': len, 'range': range, 'str': str, 'sorted': sorted}}, dict(env))
+                except Exception as e:
+                    print('cannot evaluate PROPOSED_FINDINGS in', p, e)
+                    continue
             for f in lst:
                 put(f, os.path.relpath(p, V))
 extra = os.path.join(V, 'tools', 'extra_findings.json')
